@@ -158,6 +158,8 @@ def tri_family(ctx, seed):
     r = np.random.default_rng(seed)
     ctx.search_cases += 1; ctx.evaluations += 1
     rows, cols = int(r.integers(1, 5)), int(r.integers(1, 5))
+    if r.random() < 0.3:
+        rows, cols = max(rows, cols) + 1, min(rows, cols)          # tall arrays: sub-diagonals longer than the main one is wide
     m = ro.Model(); x = m.dvar((rows, cols)); w = m.dvar((cols, rows))
     xv = r.integers(-3, 4, (rows, cols)).astype(float); wv = r.integers(-3, 4, (cols, rows)).astype(float)
     vec = np.zeros(m.rc_model.last); vec[x.first:x.first + x.size] = xv.reshape(-1); vec[w.first:w.first + w.size] = wv.reshape(-1)
@@ -173,7 +175,7 @@ def tri_family(ctx, seed):
         e, v = (w + cst.T).T, (wv + cst.T).T
     else:
         e, v = (x + cst)[:, ::-1], (xv + cst)[:, ::-1]
-    op = str(r.choice(['tril', 'triu', 'diagfill', 'diag', 'trace']))
+    op = str(r.choice(['tril', 'triu', 'diagfill', 'diag', 'diag', 'trace']))
     k = int(r.integers(-3, 4))
     case = {"seed": seed, "shape": [rows, cols], "form": form, "op": op, "k": k}
     try:
